@@ -58,6 +58,10 @@ def universe():
     class HB(H):        # subclass of a handler
         pass
 
+    class Z(H):         # a handler component that is falsy (e.g. an empty inventory)
+        def __bool__(self):
+            return False
+
     class P1(desper.Processor):
         priority = 0
 
@@ -83,7 +87,7 @@ def universe():
 
         def process(self, dt):
             log.append(('proc', id(self), dt))
-    return dict(A=A, B=B, C=C, D=D, H=H, G=G, HB=HB, P1=P1, P2=P2, P3=P3, PH=PH), log
+    return dict(A=A, B=B, C=C, D=D, H=H, G=G, HB=HB, Z=Z, P1=P1, P2=P2, P3=P3, PH=PH), log
 
 
 class Model:
@@ -353,7 +357,7 @@ def run_history(history, budget_s=10):
 
 def compare(w, m, K, log):
     """Every query against the model (C01, C06), registration (C02), callbacks (C02)."""
-    types = [K[n] for n in ('A', 'B', 'C', 'D', 'H', 'G', 'HB')]
+    types = [K[n] for n in ('A', 'B', 'C', 'D', 'H', 'G', 'HB', 'Z')]
     ents = sorted({e for (e, t) in m.att}, key=repr)
     for T in types:
         got = w.get(T)
@@ -420,7 +424,7 @@ def detached_still_registered(w, objs, m):
 
 def families(pid, tier):
     n = 3 if tier != 'thorough' else 4
-    comp_names = ['A', 'D', 'H', 'G', 'B']
+    comp_names = ['A', 'D', 'H', 'G', 'B', 'Z']
     base = []
     for cn in comp_names:
         base.append(('create', [cn], None))
